@@ -8,6 +8,7 @@ import (
 	"context"
 	"errors"
 	"fmt"
+	"io"
 	"strconv"
 	"strings"
 	"sync"
@@ -57,9 +58,166 @@ func getRec(q *query_context.Context) *rec {
 	return v.(*rec)
 }
 
+// hErr is the marker a failing plugin's error carries where the flavour allows
+// it: it survives %w wrapping, errors.Join and custom Unwrap.
 type hErr struct{ code int }
 
 func (e *hErr) Error() string { return "harness error " + strconv.Itoa(e.code) }
+
+// isErr is a custom error type that claims (through Is) to be some well-known
+// sentinel and unwraps to the marker.
+type isErr struct {
+	marker   *hErr
+	sentinel error
+}
+
+func (e *isErr) Error() string        { return "custom: " + e.sentinel.Error() }
+func (e *isErr) Is(target error) bool { return target == e.sentinel }
+func (e *isErr) Unwrap() error        { return e.marker }
+
+// ---------- what a failing plugin returns ----------
+//
+// The sequence must hand any error of a matcher or action to its caller,
+// whatever kind of value it is. The error value of every failing plugin is
+// drawn per run from this menu; the model treats errors as opaque codes, the
+// driver maps the error that came back to the code of the plugin that made it.
+
+var flavourNames = []string{
+	"marker", "wrap(marker)", "context.Canceled", "context.DeadlineExceeded", "io.EOF",
+	"wrap(context.Canceled)", "wrap(context.DeadlineExceeded)", "wrap(io.EOF)", "wrap(wrap(context.Canceled))",
+	"wrap(marker,context.Canceled)", "custom Is(context.Canceled)", "custom Is(context.DeadlineExceeded)",
+	"join(marker,context.Canceled)", "join(io.EOF,marker)", "errors.New",
+}
+
+const (
+	flBareFirst = 2 // 2..4 are bare sentinels: at most one plugin per run may use each
+	flBareLast  = 4
+)
+
+func mkErr(flavour, code int) error {
+	m := &hErr{code}
+	switch flavour {
+	case 0:
+		return m
+	case 1:
+		return fmt.Errorf("plugin failed: %w", m)
+	case 2:
+		return context.Canceled
+	case 3:
+		return context.DeadlineExceeded
+	case 4:
+		return io.EOF
+	case 5:
+		return fmt.Errorf("all upstreams failed, last: %w", context.Canceled)
+	case 6:
+		return fmt.Errorf("upstream: %w", context.DeadlineExceeded)
+	case 7:
+		return fmt.Errorf("read: %w", io.EOF)
+	case 8:
+		return fmt.Errorf("query: %w", fmt.Errorf("exchange: %w", context.Canceled))
+	case 9:
+		return fmt.Errorf("%w (%w)", m, context.Canceled)
+	case 10:
+		return &isErr{m, context.Canceled}
+	case 11:
+		return &isErr{m, context.DeadlineExceeded}
+	case 12:
+		return errors.Join(m, context.Canceled)
+	case 13:
+		return errors.Join(io.EOF, m)
+	}
+	return errors.New("plain failure " + strconv.Itoa(code))
+}
+
+// errTable holds the error value of every failing plugin of the current run.
+type errTable struct {
+	val     map[int]error // by code
+	flavour map[int]int
+	codes   []int // in assignment order
+}
+
+// cur is the table of the run in progress (the driver runs one case at a time;
+// the quick-setup constructors are package level and have no other way to it).
+var cur *errTable
+
+// failing plugin codes: matchers 500+m (m%4==2), executables 600+e (e%4==1), wrappers 700+w (w>=9)
+func failingCodes() []int {
+	var cs []int
+	for i := 0; i < nMatch; i++ {
+		if i%4 == 2 {
+			cs = append(cs, 500+i)
+		}
+	}
+	for i := 0; i < nExec; i++ {
+		if i%4 == 1 {
+			cs = append(cs, 600+i)
+		}
+	}
+	for i := 0; i < nWrap; i++ {
+		if (i/9)%2 == 1 {
+			cs = append(cs, 700+i)
+		}
+	}
+	return cs
+}
+
+// newErrTable: force < 0 draws every flavour from the menu (half of the time
+// from the context.Canceled family); force = 0 is the plain marker everywhere;
+// force = 1 cycles through the context.Canceled family.
+func newErrTable(r *hx.RNG, force int) *errTable {
+	t := &errTable{val: map[int]error{}, flavour: map[int]int{}}
+	canceled := []int{5, 2, 8, 9, 10, 12}
+	used := map[int]bool{}
+	for i, c := range failingCodes() {
+		var f int
+		switch {
+		case force == 0:
+			f = 0
+		case force == 1:
+			f = canceled[i%len(canceled)]
+		case r.Chance(1, 2):
+			f = hx.Pick(r, canceled)
+		default:
+			f = r.Intn(len(flavourNames))
+		}
+		if f >= flBareFirst && f <= flBareLast {
+			if used[f] {
+				f += 3 // the wrapped form of the same sentinel
+			}
+			used[f] = true
+		}
+		t.val[c] = mkErr(f, c)
+		t.flavour[c] = f
+		t.codes = append(t.codes, c)
+	}
+	return t
+}
+
+func (t *errTable) err(code int) error { return t.val[code] }
+
+// decode maps the error that came back to (code of the plugin that made it).
+// 0 = nil; 9998 = an error no plugin of this run made.
+func (t *errTable) decode(err error) int {
+	if err == nil {
+		return 0
+	}
+	var he *hErr
+	if errors.As(err, &he) {
+		return he.code
+	}
+	// values that are their own identity (fresh pointers) first, shared sentinels last
+	for _, c := range t.codes {
+		if f := t.flavour[c]; (f < flBareFirst || f > flBareLast) && errors.Is(err, t.val[c]) {
+			return c
+		}
+	}
+	for _, c := range t.codes {
+		if f := t.flavour[c]; f >= flBareFirst && f <= flBareLast && errors.Is(err, t.val[c]) {
+			return c
+		}
+	}
+	return 9998
+}
 
 var errAborted = errors.New("run abandoned: too many events")
 
@@ -94,7 +252,7 @@ func (m hMatch) Match(_ context.Context, q *query_context.Context) (bool, error)
 	case 2:
 		r.add(1000 + 10*m.id + 2)
 		// the boolean next to an error must be ignored, whatever it is
-		return (m.id/4)%2 == 1, &hErr{500 + m.id}
+		return (m.id/4)%2 == 1, cur.err(500 + m.id)
 	}
 	ok := q.R() != nil
 	v := 0
@@ -115,7 +273,7 @@ func (e hExec) Exec(_ context.Context, q *query_context.Context) error {
 	r.add(3000 + e.id)
 	switch e.id % 4 {
 	case 1:
-		return &hErr{600 + e.id}
+		return cur.err(600 + e.id)
 	case 2:
 		q.SetResponse(nil)
 	case 3:
@@ -184,7 +342,7 @@ func (w hWrap) Exec(ctx context.Context, q *query_context.Context, next sequence
 	}
 	r.add(base + 1)
 	if (w.id/9)%2 == 1 {
-		return &hErr{700 + w.id}
+		return cur.err(700 + w.id)
 	}
 	return nil
 }
@@ -262,7 +420,7 @@ type tmatch struct {
 
 type trule struct {
 	ms   []tmatch
-	kind string // exec wrap accept reject return jump goto
+	kind string // exec wrap accept reject return jump goto call
 	arg  int    // id / name / rcode (-1: reject without argument)
 }
 
@@ -296,6 +454,8 @@ func (r trule) coq() string {
 		a = "TJump " + hx.Ni(r.arg)
 	case "goto":
 		a = "TGoto " + hx.Ni(r.arg)
+	case "call":
+		a = "TCall " + hx.Ni(r.arg)
 	}
 	return hx.Tuple(hx.List(ms), a)
 }
@@ -385,6 +545,11 @@ func renderExec(r *hx.RNG, t trule) string {
 		s = "jump " + sp(r, 0) + "s" + strconv.Itoa(t.arg)
 	case "goto":
 		s = "goto " + sp(r, 0) + "s" + strconv.Itoa(t.arg)
+	case "call": // the sequence itself as a plain executable
+		s = "$s" + strconv.Itoa(t.arg)
+		if r.Chance(1, 6) {
+			s += " " + sp(r, 0) + "ignored"
+		}
 	}
 	return edge(r) + s + edge(r)
 }
@@ -443,15 +608,18 @@ func staticBound(ss []tseq) int {
 			}
 		case "return":
 			act = after
-		case "jump", "goto":
+		case "jump", "goto", "call":
 			ti := resolve(si, t.arg)
 			if ti < 0 {
 				return 0 // does not build
 			}
-			if t.kind == "jump" {
+			switch t.kind {
+			case "jump":
 				act = u(ti, 0, rest)
-			} else {
+			case "goto":
 				act = u(ti, 0, 0)
+			default:
+				act = capAdd(u(ti, 0, 0), rest)
 			}
 		}
 		if rest > act {
@@ -464,10 +632,12 @@ func staticBound(ss []tseq) int {
 
 // ---------- running ----------
 
-func runProg(w *hx.Writer, id string, kind string, ss []tseq, init int, r *hx.RNG) {
+// force: which errors the failing plugins return (see newErrTable).
+func runProg(w *hx.Writer, id string, kind string, ss []tseq, init int, r *hx.RNG, force int) {
 	if len(ss) == 0 {
 		return
 	}
+	cur = newErrTable(r, force)
 	if staticBound(ss) > maxEvents {
 		w.Tally("skipped-too-long", 1)
 		return
@@ -525,21 +695,37 @@ func runProg(w *hx.Writer, id string, kind string, ss []tseq, init int, r *hx.RN
 		if p := hx.Recover(func() { err = last.Exec(context.Background(), qCtx) }); p != nil {
 			err = &hErr{9999}
 		}
-		code := 0
-		var he *hErr
-		switch {
-		case rn.aborted.Load():
+		code := cur.decode(err)
+		if rn.aborted.Load() {
 			// cannot happen for a program within the static bound
 			code = 9997
-		case err == nil:
-		case errors.As(err, &he):
-			code = he.code
-		default:
-			code = 9998
 		}
 		obs = hx.App("ORun", hx.NList(rc.ev), hx.Ni(code), hx.Ni(respCode(qCtx)))
 		desc["events"] = len(rc.ev)
 		desc["err"] = code
+		if err != nil {
+			desc["err_text"] = err.Error()
+		}
+		// the error values of the failing plugins this program names
+		fl := map[string]string{}
+		for _, s := range ss {
+			for _, t := range s.rules {
+				for _, m := range t.ms {
+					if m.id < nMatch && m.id%4 == 2 {
+						fl["m"+strconv.Itoa(m.id)] = flavourNames[cur.flavour[500+m.id]]
+					}
+				}
+				if t.kind == "exec" && t.arg < nExec && t.arg%4 == 1 {
+					fl["x"+strconv.Itoa(t.arg)] = flavourNames[cur.flavour[600+t.arg]]
+				}
+				if t.kind == "wrap" && t.arg < nWrap && (t.arg/9)%2 == 1 {
+					fl["w"+strconv.Itoa(t.arg)] = flavourNames[cur.flavour[700+t.arg]]
+				}
+			}
+		}
+		if len(fl) > 0 {
+			desc["errors"] = fl
+		}
 	}
 	for _, s := range built {
 		_ = s.Close()
@@ -624,7 +810,7 @@ func genMatchers(r *hx.RNG) []tmatch {
 // shadowing happens; earlier = names already built (possibly repeated).
 func genAction(r *hx.RNG, earlier []int, wrapBudget *int) (string, int) {
 	for {
-		switch r.Intn(20) {
+		switch r.Intn(21) {
 		case 0, 1, 2, 3, 4, 5, 6:
 			j := 4 * r.Intn(4)
 			switch r.Intn(20) {
@@ -658,11 +844,16 @@ func genAction(r *hx.RNG, earlier []int, wrapBudget *int) (string, int) {
 			return "reject", r.Intn(8)
 		case 12, 13:
 			return "return", 0
-		case 14, 15, 16, 17:
+		case 14, 15, 16:
 			if len(earlier) == 0 {
 				continue
 			}
 			return "jump", hx.Pick(r, earlier)
+		case 17, 18:
+			if len(earlier) == 0 {
+				continue
+			}
+			return "call", hx.Pick(r, earlier)
 		default:
 			if len(earlier) == 0 {
 				continue
@@ -723,9 +914,9 @@ func breakProg(r *hx.RNG, ss []tseq) []tseq {
 	t := &s.rules[r.Intn(len(s.rules))]
 	switch r.Intn(7) {
 	case 0: // reference to itself or to a later sequence
-		t.kind, t.arg = hx.Pick(r, []string{"jump", "goto"}), s.name
+		t.kind, t.arg = hx.Pick(r, []string{"jump", "goto", "call"}), s.name
 	case 1:
-		t.kind, t.arg = hx.Pick(r, []string{"jump", "goto"}), r.Range(4, 6)
+		t.kind, t.arg = hx.Pick(r, []string{"jump", "goto", "call"}), r.Range(4, 6)
 	case 2:
 		t.kind, t.arg = "exec", r.Range(nExec, nExec+3)
 	case 3:
@@ -909,6 +1100,71 @@ func catalogue() []catCase {
 		{"wrap-nested", 0, []tseq{{0, []trule{ru("wrap", 2), x(0), ru("wrap", 5), x(4)}}}},
 		{"wrap-reject-on-copy-invisible", 0, []tseq{{0, []trule{ru("wrap", 4), ru("reject", 3)}}}},
 		{"wrap-reject-on-same-visible", 0, []tseq{{0, []trule{ru("wrap", 1), ru("reject", 3)}}}},
+		// a sequence used as a plain action of another one ($s<n>), with failing elements inside
+		{"call-ok", 0, []tseq{{0, []trule{x(0)}}, {1, []trule{x(4), ru("call", 0), x(8)}}}},
+		{"call-empty", 0, []tseq{{0, nil}, {1, []trule{x(4), ru("call", 0), x(8)}}}},
+		{"call-not-matched", 0, []tseq{{0, []trule{x(5)}}, {1, []trule{ru("call", 0, 1), x(8)}}}},
+		{"call-accept-ends-callee-only", 0, []tseq{{0, []trule{x(0), ru("accept", 0), x(1)}}, {1, []trule{ru("call", 0), x(4)}}}},
+		{"call-return-ends-callee-only", 0, []tseq{{0, []trule{x(0), ru("return", 0), x(1)}}, {1, []trule{ru("call", 0), x(4)}}}},
+		{"call-reject-ends-callee-only", 0, []tseq{{0, []trule{ru("reject", 3), x(1)}}, {1, []trule{ru("call", 0), ru("exec", 4, 3)}}}},
+		{"call-goto-ends-callee-only", 0, []tseq{
+			{0, []trule{x(0)}},
+			{1, []trule{ru("goto", 0), x(1)}},
+			{2, []trule{ru("call", 1), x(4)}}}},
+		{"call-exec-fails", 0, []tseq{{0, []trule{x(0), x(5), x(4)}}, {1, []trule{x(8), ru("call", 0), x(12)}}}},
+		{"call-matcher-fails", 0, []tseq{{0, []trule{ru("exec", 0, 2)}}, {1, []trule{ru("call", 0), x(4)}}}},
+		{"call-negated-matcher-fails", 0, []tseq{{0, []trule{ru("exec", 0, 0, neg(6))}}, {1, []trule{ru("call", 0), x(4)}}}},
+		{"call-fails-last-rule", 0, []tseq{{0, []trule{x(5)}}, {1, []trule{x(0), ru("call", 0)}}}},
+		{"call-fails-depth-2", 0, []tseq{
+			{0, []trule{x(9)}},
+			{1, []trule{x(0), ru("call", 0), x(4)}},
+			{2, []trule{ru("call", 1), x(8)}}}},
+		{"call-fails-depth-3", 0, []tseq{
+			{0, []trule{ru("exec", 0, 10)}},
+			{1, []trule{ru("call", 0), x(4)}},
+			{2, []trule{ru("call", 1), x(8)}},
+			{3, []trule{x(12), ru("call", 2), x(0)}}}},
+		{"call-fails-below-jump-in-callee", 0, []tseq{
+			{0, []trule{x(13)}},
+			{1, []trule{ru("jump", 0), x(4)}},
+			{2, []trule{x(8), ru("call", 1), x(12)}}}},
+		{"call-fails-with-pending-returns", 0, []tseq{
+			{0, []trule{x(5)}},
+			{1, []trule{ru("call", 0), x(4)}},
+			{2, []trule{ru("jump", 1), x(8)}},
+			{3, []trule{ru("jump", 2), x(12)}}}},
+		{"call-fails-below-goto", 0, []tseq{
+			{0, []trule{x(5)}},
+			{1, []trule{ru("call", 0), x(4)}},
+			{2, []trule{ru("goto", 1), x(8)}}}},
+		{"call-fails-under-wrapper-same", 0, []tseq{
+			{0, []trule{x(0), x(5)}},
+			{1, []trule{ru("wrap", 2), x(4), ru("call", 0), x(8)}}}},
+		{"call-fails-under-wrapper-copy", 0, []tseq{
+			{0, []trule{x(0), x(9)}},
+			{1, []trule{ru("wrap", 5), x(4), ru("call", 0), x(8)}}}},
+		{"call-fails-under-wrapper-concurrent", 0, []tseq{
+			{0, []trule{ru("exec", 0, 14)}},
+			{1, []trule{ru("wrap", 8), x(4), ru("call", 0), x(8)}}}},
+		{"call-fails-under-wrapper-pending", 0, []tseq{
+			{0, []trule{x(5)}},
+			{1, []trule{ru("wrap", 1), ru("call", 0), x(4)}},
+			{2, []trule{ru("jump", 1), x(8)}}}},
+		{"call-wrapper-inside-callee-continuation-fails", 0, []tseq{
+			{0, []trule{ru("wrap", 1), x(0), x(5), x(4)}},
+			{1, []trule{ru("call", 0), x(8)}}}},
+		{"call-wrapper-inside-callee-fails-at-end", 0, []tseq{
+			{0, []trule{ru("wrap", 10), x(0)}},
+			{1, []trule{ru("call", 0), x(8)}}}},
+		{"call-wrapper-in-callee-sees-no-caller-rules", 0, []tseq{
+			{0, []trule{ru("wrap", 2), x(0)}},
+			{1, []trule{ru("call", 0), x(4)}}}},
+		{"call-twice-second-fails", 0, []tseq{
+			{0, []trule{ru("exec", 5, 3), x(3)}},
+			{1, []trule{ru("call", 0), x(4), ru("call", 0), x(8)}}}},
+		{"call-self", 0, []tseq{{0, []trule{ru("call", 0)}}}},
+		{"call-forward", 0, []tseq{{0, []trule{ru("call", 1)}}, {1, []trule{x(0)}}}},
+		{"wrapper-fails-at-end-top", 0, []tseq{{0, []trule{ru("wrap", 11), x(0)}}}},
 		// building
 		{"self-jump", 0, []tseq{{0, []trule{ru("jump", 0)}}}},
 		{"self-goto", 0, []tseq{{0, []trule{x(0), ru("goto", 0)}}}},
@@ -946,7 +1202,8 @@ func main() {
 				continue
 			}
 			r := hx.NewRNG(o.Seed, id)
-			runProg(w, id, "catalogue", c.ss, c.init, r)
+			// rendering 0: plain errors, 1: errors of the context.Canceled family, 2: drawn
+			runProg(w, id, "catalogue", c.ss, c.init, r, []int{0, 1, -1}[v])
 		}
 	}
 	for i, s := range []string{
@@ -978,7 +1235,7 @@ func main() {
 		if r.Chance(1, 6) {
 			init = 1 + r.Intn(6)
 		}
-		runProg(w, id, kind, ss, init, r)
+		runProg(w, id, kind, ss, init, r, -1)
 	}
 	np := o.Count(150, 5000)
 	for i := 0; i < np; i++ {
